@@ -44,7 +44,7 @@ type node struct {
 
 // Op is one step of a registry history.
 type Op struct {
-	Op     string   `json:"op"` // reg dereg status serf nodemaint svcmaint kv sync | faults: catfail healthfail kvjump hjump
+	Op     string   `json:"op"` // reg dereg status serf nodemaint svcmaint kv sync | faults: catfail healthfail kvjump hjump | busy table loop: hold release
 	Node   string   `json:"node,omitempty"`
 	ID     string   `json:"sid,omitempty"`
 	Name   string   `json:"name,omitempty"`
@@ -57,7 +57,21 @@ type Op struct {
 	On     bool     `json:"on,omitempty"`
 	Key    string   `json:"key,omitempty"`
 	Defs   []rt.Def `json:"defs,omitempty"`
-	N      int      `json:"n,omitempty"` // catfail: number of failing lookups
+	N      int      `json:"n,omitempty"`   // catfail: number of failing lookups
+	Pad    int      `json:"pad,omitempty"` // kv: white space / comment lines around the commands of the value (kvPads)
+}
+
+// white space, empty lines, comment lines and CRs an operator's KV value may carry around its commands
+var (
+	kvPre  = []string{"", "\n", "  ", "# note\n", "\n\n\t", "// x\n  "}
+	kvPost = []string{"", "\n", " \n\n", "\r\n", "\n# end", "\t"}
+)
+
+func kvRawValue(ds []rt.Def, pad int) string {
+	if pad < 0 {
+		pad = -pad
+	}
+	return kvPre[pad%len(kvPre)] + rt.Text(ds) + kvPost[(pad/len(kvPre))%len(kvPost)]
 }
 
 // CheckJ / InstJ are the canonical forms shipped to the Lean side.
@@ -86,6 +100,7 @@ type registryState struct {
 	nodes []*node
 	insts []*inst
 	kv    map[string][]rt.Def
+	kvRaw map[string]string // the value as stored (commands of kv[k] with padding around them)
 
 	hIndex, kvIndex         uint64 // current index of the health/catalog state and of the KV tree
 	hServed, kvServed       uint64 // index of the snapshot in the last answer to the watcher
@@ -106,7 +121,7 @@ type registryState struct {
 
 func newRegistry(kvPath string) *registryState {
 	// indexes start high so that a backwards jump ("snapshot restore") has room below them
-	r := &registryState{kv: map[string][]rt.Def{}, catFail: map[string]int{}, hIndex: 1000, kvIndex: 1000, kvPath: strings.Trim(kvPath, "/"), wait: 100 * time.Millisecond, roundClean: true}
+	r := &registryState{kv: map[string][]rt.Def{}, kvRaw: map[string]string{}, catFail: map[string]int{}, hIndex: 1000, kvIndex: 1000, kvPath: strings.Trim(kvPath, "/"), wait: 100 * time.Millisecond, roundClean: true}
 	r.cond = sync.NewCond(&r.mu)
 	return r
 }
@@ -198,12 +213,14 @@ func (r *registryState) apply(o Op) {
 		}
 		if len(o.Defs) == 0 {
 			delete(r.kv, o.Key)
+			delete(r.kvRaw, o.Key)
 		} else {
 			ds := append([]rt.Def{}, o.Defs...)
 			for k := range ds {
 				ds[k].Fill()
 			}
 			r.kv[o.Key] = ds
+			r.kvRaw[o.Key] = kvRawValue(ds, o.Pad)
 		}
 		r.kvIndex++
 	case "catfail":
@@ -318,7 +335,7 @@ func (r *registryState) kvDefsLocked() []rt.Def {
 func (r *registryState) kvTextLocked() string {
 	var parts []string
 	for _, k := range r.kvKeysLocked() {
-		parts = append(parts, "# --- "+r.kvPath+"/"+k+"\n"+strings.TrimSpace(rt.Text(r.kv[k])))
+		parts = append(parts, "# --- "+r.kvPath+"/"+k+"\n"+strings.TrimSpace(r.kvRaw[k]))
 	}
 	return strings.Join(parts, "\n\n")
 }
@@ -329,12 +346,18 @@ type Snapshot struct {
 	Catalog []InstJ  `json:"catalog"`
 	KV      []rt.Def `json:"kv"`
 	KVText  string   `json:"kvtext"`
+	// the KV pairs below the path as Consul lists them (sorted by key): full key, stored value
+	KVPairs [][]string `json:"kvpairs"`
 }
 
 func (r *registryState) snapshot() Snapshot {
 	r.mu.Lock()
 	defer r.mu.Unlock()
-	return Snapshot{Checks: r.checksLocked(), Catalog: r.catalogLocked("", true), KV: r.kvDefsLocked(), KVText: r.kvTextLocked()}
+	pairs := [][]string{}
+	for _, k := range r.kvKeysLocked() {
+		pairs = append(pairs, []string{r.kvPath + "/" + k, r.kvRaw[k]})
+	}
+	return Snapshot{Checks: r.checksLocked(), Catalog: r.catalogLocked("", true), KV: r.kvDefsLocked(), KVText: r.kvTextLocked(), KVPairs: pairs}
 }
 
 // ---- HTTP ----
@@ -381,7 +404,7 @@ func (r *registryState) ServeHTTP(w http.ResponseWriter, req *http.Request) {
 		}
 		type hc struct {
 			Node, CheckID, Name, Status, Notes, Output, ServiceID, ServiceName string
-			ServiceTags                                                       []string
+			ServiceTags                                                        []string
 		}
 		out := []hc{}
 		for _, c := range r.checksLocked() {
@@ -435,7 +458,7 @@ func (r *registryState) ServeHTTP(w http.ResponseWriter, req *http.Request) {
 		out := []kvp{}
 		if mine {
 			for _, k := range r.kvKeysLocked() {
-				out = append(out, kvp{Key: r.kvPath + "/" + k, CreateIndex: 1, ModifyIndex: r.kvIndex, Value: base64.StdEncoding.EncodeToString([]byte(rt.Text(r.kv[k])))})
+				out = append(out, kvp{Key: r.kvPath + "/" + k, CreateIndex: 1, ModifyIndex: r.kvIndex, Value: base64.StdEncoding.EncodeToString([]byte(r.kvRaw[k]))})
 			}
 		}
 		idx := r.kvIndex
@@ -487,6 +510,29 @@ func (r *registryState) waitFor(pred func() bool, d time.Duration) bool {
 // loop. Whether the table loop has also finished processing it is asked of the child process itself (command
 // `idle`: the goroutine of main.watchBackend is parked in its select), see awaitIdle in pipeline.go. Nothing is
 // sent through the loop for the sake of the observation.
+// quiescedNow is quiesce without waiting.
+func (r *registryState) quiescedNow() bool {
+	r.mu.Lock()
+	defer r.mu.Unlock()
+	return r.hDelivered == r.hIndex && r.kvDelivered == r.kvIndex
+}
+
+// pendingWatchers counts the watchers that have not come back for more since the registry reached its current
+// state: each of them is on its way to the fake, computing its text, or blocked handing a text (of this or of an
+// earlier state) to the table loop.
+func (r *registryState) pendingWatchers() int {
+	r.mu.Lock()
+	defer r.mu.Unlock()
+	n := 0
+	if r.hDelivered != r.hIndex {
+		n++
+	}
+	if r.kvDelivered != r.kvIndex {
+		n++
+	}
+	return n
+}
+
 func (r *registryState) quiesce(d time.Duration) bool {
 	return r.waitFor(func() bool { return r.hDelivered == r.hIndex && r.kvDelivered == r.kvIndex }, d)
 }
